@@ -5,7 +5,7 @@ from .base import Verdict, sig_of, crash_check
 
 ID = "C10"
 LEVEL = "exploration"
-RUNS = (6000, 200000)
+RUNS = (12000, 300000)
 RULE = ("one seeded object (parsed 5.1 file, setter history, or merge result; values biased towards mixed-case booleans, numbers in all "
         "bases, quoted and multi-line text) followed by a seeded history of 5-40 read-only calls; after EVERY call the full dump "
         "(listing, string+extended getters, tags, path, bytes written by econf_writeFile) must equal the dump taken before the first "
